@@ -147,16 +147,21 @@ theorem print_compile_general (reg : Registry) (sem : Sem) (D : C09.Expr → Boo
     integer folds (`sumi subi multi divi modi maxi mini`, any arity ≥ 2, nested arbitrarily), `isint`,
     `bucket bucketrange clamp expbucket`, the float comparisons and folds (`lt gt lte gte sumf subf multf divf`
     on the binary64 model), `isnum ceil floor sqrt hf`, the string helpers (`len like prefix suffix substr
-    select tab $ @ csv hi`), the path helpers and `@len @split @join @in` – `fragment_names`.  Outside: helpers
-    that evaluate an argument in a sub-context (`@map @filter @reduce @for`; user functions are C10's
-    `call_nested_eq_body`), `upper`/`lower` (the model covers ASCII only), the libm-backed and time helpers. -/
+    select tab $ @ csv hi`), the path helpers, `@len @split @join @in`, and (round 2) `@select @slice` with
+    constant indices (on lists of ANY length: `selectW`/`sliceW`, the documented `select`/`slice` below 2^63
+    elements – C17's `wrapped_is_documented`), `@range` (C17's closed form), `repeat` / `lookup` / `haskey` with
+    their constant text or table, `round` / `percent` / `bytesize` / `bytesizesi` / `downscale` with a constant
+    precision (binary64 model), and `upper` / `lower` of an ASCII literal (the model's case mapping is ASCII
+    only; anything else is Go's Unicode tables) – `fragment_names`.  Outside this theorem: helpers that evaluate
+    an argument in a sub-context (`@map @filter @reduce @for`: `print_compile_binders` below; user functions:
+    C10's `call_nested_eq_body`), the libm-backed and time helpers, `format`. -/
 theorem print_compile_std_fragment (known : List String) (opt : Bool) (σ : Style) (e : C09.Expr)
     (ha : AdmissibleTop e) (hf : fragOk e = true) :
     ∃ stages, compile (stdRegistry known) opt (printTop σ e) = .ok (stages, []) ∧
       ∀ ctx, (buildKey stages).run ctx = .ok (evalTree (envOf ctx stdSem) e) :=
   printTop_std_fragment known opt σ e ha hf
 
-/-- The fragment, by name (52 of the names of the real function table, `Gen.stdFunctionNames`, regenerated
+/-- The fragment, by name (65 of the names of the real function table, `Gen.stdFunctionNames`, regenerated
     from `/repo` on every run; each entry's builder is literally the one the model's standard registry has
     under that name – `fragTable_ok`). -/
 theorem fragment_names :
@@ -164,14 +169,18 @@ theorem fragment_names :
       "sumi", "subi", "multi", "divi", "modi", "maxi", "mini", "isint", "bucket", "bucketrange", "clamp", "expbucket",
       "isnum", "lt", "gt", "lte", "gte", "sumf", "subf", "multf", "divf", "ceil", "floor", "sqrt", "hf",
       "len", "like", "prefix", "suffix", "substr", "select", "tab", "$", "@", "csv", "hi",
-      "basename", "dirname", "extname", "@len", "@split", "@join", "@in"] ∧
+      "basename", "dirname", "extname", "@len", "@split", "@join", "@in",
+      "@select", "@slice", "@range", "upper", "lower", "repeat", "lookup", "haskey", "round", "percent",
+      "bytesize", "bytesizesi", "downscale"] ∧
     (∀ n ∈ fragNames, n ∈ Gen.stdFunctionNames) ∧
     (∀ p ∈ fragTable, lookupTable stdTable p.1 = some p.2.builder) := by
   have h : fragNames = ["coalesce", "eq", "neq", "not", "and", "or", "if", "unless", "switch",
       "sumi", "subi", "multi", "divi", "modi", "maxi", "mini", "isint", "bucket", "bucketrange", "clamp", "expbucket",
       "isnum", "lt", "gt", "lte", "gte", "sumf", "subf", "multf", "divf", "ceil", "floor", "sqrt", "hf",
       "len", "like", "prefix", "suffix", "substr", "select", "tab", "$", "@", "csv", "hi",
-      "basename", "dirname", "extname", "@len", "@split", "@join", "@in"] := rfl
+      "basename", "dirname", "extname", "@len", "@split", "@join", "@in",
+      "@select", "@slice", "@range", "upper", "lower", "repeat", "lookup", "haskey", "round", "percent",
+      "bytesize", "bytesizesi", "downscale"] := rfl
   refine ⟨h, ?_, fun p hp => (fragTable_ok p hp).2⟩
   rw [h]; decide
 
